@@ -6,6 +6,9 @@ use std::collections::hash_map::Entry as HEntry;
 use std::collections::{BTreeMap, HashMap, HashSet};
 use std::sync::Arc;
 
+#[cfg(prometheus_verif)]
+use crate::verif_sync::RwLock;
+#[cfg(not(prometheus_verif))]
 use parking_lot::RwLock;
 
 use crate::desc::{is_valid_label_name, is_valid_metric_name};
